@@ -1,10 +1,12 @@
 // C18 - authentication gates: protected handlers run only for valid credentials.
 //
 // Bounded-exhaustive enumeration (no sampling) of
-//   jwt    base requests x complete single-field mutation space against handler.Authorize,
-//   seq    request histories (secret-rotation counters of token.TokenParser), explicit-state,
-//   cs     signed requests x single-field mutations against strict ContentSecurityHandler,
-//   crypt  payload round trips through CryptionHandler,
+//
+//	jwt    base requests x complete single-field mutation space against handler.Authorize,
+//	seq    request histories (secret-rotation counters of token.TokenParser), explicit-state,
+//	cs     signed requests x single-field mutations against strict ContentSecurityHandler,
+//	crypt  payload round trips through CryptionHandler,
+//
 // each judged by an independent verifier written from the property statement (jwt.go: verifyToken,
 // cs.go: csOracle, keys.go: own RSA/AES). See NOTES.md.
 package main
@@ -95,7 +97,9 @@ func runJobs(r *vlib.Report, jobs []job) {
 	}
 }
 
-func cfgKey(c jwtCfg) string { return fmt.Sprintf("%d|%d|%v|%s", len(c.Secret), len(c.Prev), c.Callback, c.Warm) }
+func cfgKey(c jwtCfg) string {
+	return fmt.Sprintf("%d|%d|%v|%s", len(c.Secret), len(c.Prev), c.Callback, c.Warm)
+}
 
 func evalJWT(o *jobOut, c jwtCase, fam string) {
 	p, exp, obs := checkJWT(c)
@@ -274,9 +278,11 @@ func csJobs(thorough bool) []job {
 	for _, b := range csBases(thorough) {
 		b := b
 		jobs = append(jobs, job{name: "cs", run: func(o *jobOut) {
-			csMutations(b, thorough, func(m csMut) {
+			memo := &rsaMemo{}
+			full := thorough || (b.TolMs == 1000 && !b.XUri)
+			csMutations(b, thorough, full, func(m csMut) {
 				c := csCase{Base: b, Mut: m}
-				p, exp, obs := checkCS(c)
+				p, exp, obs := checkCS(c, memo)
 				o.evals++
 				o.keys = append(o.keys, fmt.Sprintf("cs|%v|%v", b, m))
 				out := "rejected"
@@ -313,7 +319,7 @@ func csJobs(thorough bool) []job {
 		chunk := gens[i:min(i+32, len(gens))]
 		jobs = append(jobs, job{name: "cs-crypt", run: func(o *jobOut) {
 			for _, c := range chunk {
-				p, exp, obs := checkCS(c)
+				p, exp, obs := checkCS(c, nil)
 				o.evals++
 				o.keys = append(o.keys, fmt.Sprintf("cs|%v|%v", c.Base, c.Mut))
 				out := "rejected"
@@ -376,7 +382,7 @@ func replay(cfg *vlib.Config) {
 	case "cs":
 		var exp csExpect
 		var obs csObs
-		p, exp, obs = checkCS(*rc.CS)
+		p, exp, obs = checkCS(*rc.CS, nil)
 		fmt.Printf("replay cs: %s\n  expected: %s (%s)\n  observed: handler ran=%d status=%d body-seen=%q\n", rc.CS.String(), verdictName(exp.Verdict), exp.Reason, obs.Ran, obs.Status, trunc(obs.Seen))
 	case "crypt":
 		p = checkCrypt(*rc.Crypt)
